@@ -317,7 +317,7 @@ CHECKS = {
         level="exploration",
         technique="structure-aware fuzzing (rapid) of hostile sessions against a worker process hosting the real binary under an address-space limit, hostile on-disk content through the library constructors and the CLI; native go fuzz targets in the thorough tier",
         rule="unit sessions: a worker = the real server binary under 'ulimit -v 8000000' over a static hostile fixture (29 malformed PARAM.SFO variants, encrypted images with region counts 0/1/256/2^31/"
-             "2^32-1, non-monotonic and beyond-EOF tables, truncated images, short/non-hex/huge/empty key files, 3k3y images at lengths 0x106F/0x1070 and with broken tables, PSX images, a 64 MiB sparse "
+             "2^32-1, non-monotonic and beyond-EOF tables, truncated images, short/non-hex/huge/empty key files, 3k3y images at lengths 0x106F/0x1070 and with broken tables, PSX images, a 16 MiB sparse "
              "file, 40 levels of nesting, 600 entries in one directory, 255-byte, non-UTF-8, newline and prefix-looking names, symlink loops). each case = 1..3 concurrent sessions of 1..25 hostile "
              "requests: opens of every fixture object plain and through ***DVD***/***PS3***, reads with limits/offsets from {0,1,2047..2049,0xF6F,0xF70,0x1070,6143,6144,2^31,2^32,2^63-1,2^63,2^64-1}, "
              "CD reads with counts up to 2^32-1, uploads announcing up to 2^32-1 bytes, random bytes, valid opcodes with random tails, 64 KiB paths; afterwards a probe STAT on a fresh connection "
@@ -327,7 +327,7 @@ CHECKS = {
              "by request list / content bytes",
         assumptions=["the address-space limit (8 GB) is an assumption of the crash oracle: it makes count-driven allocations fatal on any host",
                      "replies are not judged here (C02/C03/C13 do that): only survival, liveness and the absence of crash signatures",
-                     "the fixture's largest file is 64 MiB: memory exhaustion by many concurrent maximal ordinary reads of multi-GiB files is not explored (DESIGN section 5)"],
+                     "the fixture's largest file is 16 MiB: memory exhaustion by many concurrent maximal ordinary reads of multi-GiB files is not explored (DESIGN section 5)"],
         units=[
             dict(test="TestC04Sessions", unit="sessions", kind="rapid", checks=(1600, 48000), shards=(8, 16), bin=True),
             dict(test="TestC04Content", unit="content", kind="rapid", checks=(2400, 80000), shards=(8, 16), bin=True),
